@@ -331,7 +331,7 @@ def run_slice_plotfile_scenario(p, wd):
             # others any
             lim = None if ci == 0 else (rng.randrange(pf.L) if (ci == 1 and pf.L > 0) else rng.choice([None] + list(range(pf.L + 1))))
             L = pf.L if lim is None else lim
-            nsel = rng.randrange(1, len(names) + 1)
+            nsel = len(names) if p.get("all_fields") else rng.randrange(1, len(names) + 1)
             fields = rng.sample(names, nsel)
             comps = [names.index(f) for f in fields]
             cx, cy = [d for d in range(3) if d != cn]
